@@ -503,6 +503,17 @@ class Interp:
             if key not in self.volatile:
                 self.store[key] = v
             return True, v
+        # class-level literal constants (e.g. alias lists hoisted into the class)
+        if "." in key:
+            base, attr = key.rsplit(".", 1)
+            cls = self.types.get(base) or (base if self.idx is not None and self.idx.has_cls(base) and len(self.idx.classes[base]) == 1 else None)
+            if cls and self.idx is not None and self.idx.has_cls(cls):
+                for c in self.idx.mro(cls):
+                    if attr in c.class_assigns:
+                        try:
+                            return True, ast.literal_eval(c.class_assigns[attr])
+                        except (ValueError, SyntaxError):
+                            break
         return False, None
 
     def eval(self, e, frame):
@@ -697,6 +708,31 @@ class Interp:
             return base[i]
         except (IndexError, KeyError) as ex:
             raise Raised(type(ex).__name__)
+
+    def e_Yield(self, e, frame):
+        v = self.eval(e.value, frame) if e.value is not None else None
+        self.path.trace.append(("yield", "yield", v))
+        return None
+
+    def e_Lambda(self, e, frame):
+        return Residual(unparse(e))
+
+    def e_ListComp(self, e, frame):
+        if len(e.generators) != 1:
+            raise Undecidable(f"nested comprehension {unparse(e)}")
+        g = e.generators[0]
+        it = self.eval(g.iter, frame)
+        if isinstance(it, Residual):
+            return Residual(unparse(e))
+        out = []
+        inner = dict(frame)
+        for item in list(it):
+            self.assign(g.target, item, inner)
+            if all(self.truth(self.eval(c, inner)) for c in g.ifs):
+                out.append(self.eval(e.elt, inner))
+        return out
+
+    e_GeneratorExp = e_ListComp
 
     def e_Call(self, e, frame):
         full = unparse(e)
